@@ -501,28 +501,65 @@ def rule_globstar_capture(ctx: Ctx, rule: str) -> None:
         ctx.count('decision_table_rows', rows)
         ctx.ob(rule, f'{WP}:WcParse.__init__/self.{name}', ok, repo.loc(WP, fn.node), 'documented predicate', f'{rows} rows agree' if ok else why, witness=wit)
     hs = repo.func(WP, 'WcParse._handle_star')
-    q = fq(hs)
-    caps = [j for j in walk_no_nested(hs.node) if isinstance(j, ast.JoinedStr) and norm_src(j).replace('"', "'") in ("f'({globstar})'",)]
-    okc = len(caps) == 1 and q.guarded(caps[0], 'capture', 'T')
-    ctx.ob(rule, f'{WP}:WcParse._handle_star/globstar-capture-under-if-capture', okc, repo.loc(WP, caps[0] if caps else hs.node),
-           "if capture: globstar = f'({globstar})'", f'{len(caps)} site(s)')
-    d = [s for s in walk_no_nested(hs.node) if isinstance(s, ast.Assign) and norm_src(s.targets[0]) == 'capture']
-    vals = sorted(norm_src(s.value) for s in d)
-    okd = vals == ['False', 'self.globstar_capture']
-    off = [s for s in d if norm_src(s.value) == 'False']
-    okd = okd and all(q.guarded(s, 'self.globstarlong', 'T') for s in off)
-    ctx.ob(rule, f'{WP}:WcParse._handle_star/capture-definitions', okd, repo.loc(WP, hs.node),
-           'capture = self.globstar_capture; capture = False only on the `***` path', str(vals),
+    from .seqrules import star_table
+    import re as _re
+    paths = star_table(repo)
+    from ..symeval import focus, _tag
+    bad_w, bad_u = [], []
+    n_wrapped = n_plain = 0
+    for p in paths:
+        focus(p)
+        d = p.decisions
+        vals = [e[2][0] for e in p.of('call') if e[1].endswith('.append') and e[2]]
+        gsc = d.get('self.globstar_capture')
+        stars = sum(1 for k, v in d.items() if v and _re.fullmatch(r"next\(i\)(#\d+)? == '\*'", k))
+        triple = stars >= 2 and d.get('self.globstarlong') is True
+        for v in vals:
+            t = _tag(v)
+            if 'gstar' not in t:
+                continue
+            wrapped = isinstance(v, Tok) and v.parts and v.parts[0] == '(' and v.parts[-1] == ')'
+            if wrapped:
+                n_wrapped += 1
+                if gsc is not True or triple:
+                    bad_w.append(f'globstar_capture={gsc} triple-star={triple}: appends {t[:60]}')
+            else:
+                n_plain += 1
+                if gsc is True and not triple and stars >= 1:
+                    bad_u.append(f'globstar_capture=True, `**`: appends {t[:60]} without the capturing parenthesis')
+    if n_wrapped + n_plain < 8:
+        raise AnalysisError(f'_handle_star: table has {n_wrapped} capturing / {n_plain} plain globstar emissions')
+    ctx.ob(rule, f'{WP}:WcParse._handle_star/globstar-capture-under-if-capture', not bad_w, repo.loc(WP, hs.node),
+           'the globstar fragment is wrapped in a capturing parenthesis only when self.globstar_capture holds', f'{n_wrapped} capturing rows agree' if not bad_w else bad_w[0])
+    ctx.ob(rule, f'{WP}:WcParse._handle_star/capture-definitions', not bad_u and not any('triple-star=True' in b for b in bad_w), repo.loc(WP, hs.node),
+           'with globstar_capture every `**` is captured; `***` never is', f'{n_plain} plain rows agree' if not bad_u else bad_u[0],
            witness="globmatch('link/x', '***/x', GL, REALPATH) must follow the link: `***` leaves no capture")
-    # every other `(` + … + `)` construction in WcParse
+    # every other construction of a string that opens a bare capturing parenthesis in WcParse
     others = []
+
+    def opens_capture(e: ast.AST) -> bool:
+        first = None
+        if isinstance(e, ast.JoinedStr) and e.values:
+            first = e.values[0]
+        elif isinstance(e, ast.BinOp) and isinstance(e.op, ast.Add):
+            x = e
+            while isinstance(x, ast.BinOp) and isinstance(x.op, ast.Add):
+                x = x.left
+            first = x
+        elif isinstance(e, ast.Call) and isinstance(e.func, ast.Attribute) and e.func.attr == 'format':
+            first = e.func.value
+        return isinstance(first, ast.Constant) and isinstance(first.value, str) and first.value.startswith('(') and not first.value.startswith('(?')
     for fi in repo.cls(WP, 'WcParse').methods.values():
+        if fi is hs:
+            continue  # decided on the table above
+        par = {}
         for j in walk_no_nested(fi.node):
-            if isinstance(j, ast.JoinedStr) and j is not (caps[0] if caps else None):
-                first = j.values[0] if j.values else None
-                if isinstance(first, ast.Constant) and isinstance(first.value, str) and first.value.startswith('(') and not first.value.startswith('(?'):
-                    others.append(f'{fi.qualname}: {norm_src(j)[:40]}')
-    ctx.ob(rule, f'{WP}:WcParse/no-other-bare-capture', not others, repo.loc(WP, hs.node), 'no other f-string opens a capturing parenthesis', str(others))
+            for ch in ast.iter_child_nodes(j):
+                par[id(ch)] = j
+        for j in walk_no_nested(fi.node):
+            if opens_capture(j) and not (isinstance(par.get(id(j)), ast.BinOp) and isinstance(par[id(j)].op, ast.Add) and par[id(j)].left is j):
+                others.append(f'{fi.qualname}: {norm_src(j)[:40]}')
+    ctx.ob(rule, f'{WP}:WcParse/no-other-bare-capture', not others, repo.loc(WP, hs.node), 'no other expression builds a string that opens a bare capturing parenthesis', str(others))
 
 
 def rule_no_root_first(ctx: Ctx, rule: str) -> None:
